@@ -85,6 +85,36 @@ fn many_rows_src(total: usize, m: usize, seed: u64) -> Vec<usize> {
 
 pub struct C10;
 
+/// the element types the checks run at; the serialisation round trips are written against the concrete types (see
+/// the same trait in c12.rs)
+pub trait Elem: RealNumber + Serialize + DeserializeOwned {
+    fn restore_svc<K: Kernel<Self, Vec<Self>> + Serialize + DeserializeOwned>(m: &SVC<Self, DenseMatrix<Self>, Counting<K>>, how: u8) -> Result<SVC<Self, DenseMatrix<Self>, Counting<K>>, String>;
+    fn restore_svr<K: Kernel<Self, Vec<Self>> + Serialize + DeserializeOwned>(m: &SVR<Self, DenseMatrix<Self>, Counting<K>>, how: u8) -> Result<SVR<Self, DenseMatrix<Self>, Counting<K>>, String>;
+}
+macro_rules! elem {
+    ($t:ty) => {
+        impl Elem for $t {
+            fn restore_svc<K: Kernel<$t, Vec<$t>> + Serialize + DeserializeOwned>(m: &SVC<$t, DenseMatrix<$t>, Counting<K>>, how: u8) -> Result<SVC<$t, DenseMatrix<$t>, Counting<K>>, String> {
+                if how == 1 {
+                    bincode::serialize(m).map_err(|e| e.to_string()).and_then(|b| bincode::deserialize(&b).map_err(|e| e.to_string()))
+                } else {
+                    serde_json::to_value(m).map_err(|e| e.to_string()).and_then(|v| serde_json::from_value(v).map_err(|e| e.to_string()))
+                }
+            }
+            fn restore_svr<K: Kernel<$t, Vec<$t>> + Serialize + DeserializeOwned>(m: &SVR<$t, DenseMatrix<$t>, Counting<K>>, how: u8) -> Result<SVR<$t, DenseMatrix<$t>, Counting<K>>, String> {
+                if how == 1 {
+                    bincode::serialize(m).map_err(|e| e.to_string()).and_then(|b| bincode::deserialize(&b).map_err(|e| e.to_string()))
+                } else {
+                    serde_json::to_value(m).map_err(|e| e.to_string()).and_then(|v| serde_json::from_value(v).map_err(|e| e.to_string()))
+                }
+            }
+        }
+    };
+}
+elem!(f32);
+elem!(f64);
+
+
 fn dot(a: &[f64], b: &[f64]) -> f64 {
     a.iter().zip(b).map(|(x, y)| x * y).sum()
 }
@@ -247,7 +277,7 @@ fn decode_schedule(n: usize, words: &[Word], shuffles: usize) -> Vec<Vec<usize>>
 impl C10 {
     fn run_svc<T, K>(&self, case: &Case, inner: K, rep: &mut Report)
     where
-        T: RealNumber + Serialize + DeserializeOwned,
+        T: Elem,
         K: Kernel<T, Vec<T>> + Serialize + DeserializeOwned + Clone,
     {
         let n = case.x.len();
@@ -577,11 +607,7 @@ impl C10 {
                     }
                 }
                 if case.post.roundtrip > 0 && rep.violation.is_none() {
-                    let restored: Result<SVC<T, DenseMatrix<T>, Counting<K>>, String> = if case.post.roundtrip == 1 {
-                        bincode::serialize(&model).map_err(|e| e.to_string()).and_then(|b| bincode::deserialize(&b).map_err(|e| e.to_string()))
-                    } else {
-                        serde_json::to_value(&model).map_err(|e| e.to_string()).and_then(|v| serde_json::from_value(v).map_err(|e| e.to_string()))
-                    };
+                    let restored: Result<SVC<T, DenseMatrix<T>, Counting<K>>, String> = T::restore_svc(&model, case.post.roundtrip);
                     rep.count("fault.model-restored-from-serialised-form", 1);
                     match restored {
                         Err(e) => rep.fail("restore-failed", "svc-model", format!("{}: the fitted model does not survive serialisation: {}", ctx, e)),
@@ -622,7 +648,7 @@ impl C10 {
 
     fn run_svr<T, K>(&self, case: &Case, inner: K, rep: &mut Report)
     where
-        T: RealNumber + Serialize + DeserializeOwned,
+        T: Elem,
         K: Kernel<T, Vec<T>> + Serialize + DeserializeOwned + Clone,
     {
         let n = case.x.len();
@@ -849,11 +875,7 @@ impl C10 {
                     }
                 }
                 if case.post.roundtrip > 0 && rep.violation.is_none() {
-                    let restored: Result<SVR<T, DenseMatrix<T>, Counting<K>>, String> = if case.post.roundtrip == 1 {
-                        bincode::serialize(&model).map_err(|e| e.to_string()).and_then(|b| bincode::deserialize(&b).map_err(|e| e.to_string()))
-                    } else {
-                        serde_json::to_value(&model).map_err(|e| e.to_string()).and_then(|v| serde_json::from_value(v).map_err(|e| e.to_string()))
-                    };
+                    let restored: Result<SVR<T, DenseMatrix<T>, Counting<K>>, String> = T::restore_svr(&model, case.post.roundtrip);
                     rep.count("fault.model-restored-from-serialised-form", 1);
                     match restored {
                         Err(e) => rep.fail("restore-failed", "svr-model", format!("{}: the fitted model does not survive serialisation: {}", ctx, e)),
@@ -982,7 +1004,7 @@ impl C10 {
         rep.log_digest = d.get();
     }
 
-    fn dispatch<T: RealNumber + Serialize + DeserializeOwned>(&self, case: &Case, rep: &mut Report) {
+    fn dispatch<T: Elem>(&self, case: &Case, rep: &mut Report) {
         let g = T::from_f64(case.kernel.gamma).unwrap();
         let dg = T::from_f64(case.kernel.degree).unwrap();
         let c0 = T::from_f64(case.kernel.coef0).unwrap();
